@@ -273,6 +273,14 @@ func valuesOf(s *jShape, r *rng, limit int) []reflect.Value {
 			}
 			add(sl)
 		}
+		// a long one (the encoder and the decoder treat the first elements apart from the rest), of small elements
+		if len(elems) > 0 {
+			sl := reflect.MakeSlice(t, 0, 70)
+			for i := 0; i < 70; i++ {
+				sl = reflect.Append(sl, elems[i%min(len(elems), 3)])
+			}
+			out = append(out, sl)
+		}
 	case "array2":
 		add(zero)
 		for i, e := range elems {
